@@ -4,13 +4,15 @@
 # usage: tools/confirm_seed.sh <worktree> <dir with patch.diff demo.rs meta.json> <seed id> <property>
 WT=$1; M=$2; ID=$3; PROP=$4
 cd $WT || exit 3
-git checkout -q -- . ; rm -f tests/demo_seed.rs
-cp $M/demo.rs tests/demo_seed.rs
+git checkout -q -- . ; rm -f tests/demo_seed.rs core/tests/demo_seed.rs
+PLACE=tests; PKG=""
+if head -3 $M/demo.rs | grep -q "place: core/tests"; then PLACE=core/tests; PKG="-p darling_core"; mkdir -p core/tests; fi
+cp $M/demo.rs $PLACE/demo_seed.rs
 LOG=/tmp/confirm_$ID.log; : > $LOG
-cargo test --offline --test demo_seed >> $LOG 2>&1; PRISTINE=$?
-git apply $M/patch.diff || { echo "$ID: patch does not apply"; exit 3; }
-cargo test --offline --test demo_seed >> $LOG 2>&1; MUT=$?
-rm -f tests/demo_seed.rs
+cargo test --offline $PKG --test demo_seed >> $LOG 2>&1; PRISTINE=$?
+git apply $M/patch.diff || { echo "$ID: patch does not apply"; rm -f $PLACE/demo_seed.rs; exit 3; }
+cargo test --offline $PKG --test demo_seed >> $LOG 2>&1; MUT=$?
+rm -f $PLACE/demo_seed.rs; rmdir core/tests 2>/dev/null
 cargo test --workspace --no-fail-fast --offline > /tmp/confirm_${ID}_suite.log 2>&1; SUITE=$?
 FAILED=$(grep -c "^test .* FAILED" /tmp/confirm_${ID}_suite.log)
 git checkout -q -- .
